@@ -35,6 +35,8 @@ JsonGrammar == /\ jst = JFinal(text)
 
 \* lexer.go validNumber = the grammar of tonumber; every JSON number can be re-read by tonumber
 LexerGrammar == /\ ValidNumber(text) <=> ToNumberDecl(text)
+                /\ QueryNumber(text) <=> QueryNumberDecl(text)
+                /\ SignedIntegerShape(text) => ValidNumber(text) /\ IsJsonNumber(CanonSigned(text))
                 /\ IsJsonNumber(text) => ValidNumber(text)
 
 \* what the encoders emit for a number stays a JSON number
